@@ -37,6 +37,7 @@ func init() {
 	ops["reenc"] = opReenc
 	ops["det"] = opDet
 	ops["spec"] = opSpec
+	ops["wfail"] = opWFail
 }
 
 func execOp(line string) (res string) {
